@@ -7,6 +7,7 @@ import (
 	"math"
 	"math/big"
 	"strings"
+	"sync"
 	"testing"
 	"time"
 
@@ -391,4 +392,60 @@ func FuzzParseDuration(f *testing.F) {
 		f.Add(s)
 	}
 	f.Fuzz(func(t *testing.T, s string) { checkParse(t, "FuzzParseDuration", s) })
+}
+
+// TestConcurrentRoundTrip: the helpers are pure functions of their argument, also when several goroutines
+// use them at once. 8 goroutines format (all three entry points) and parse the same generated values over
+// and over; every result must equal the one computed beforehand on a single goroutine.
+func TestConcurrentRoundTrip(t *testing.T) {
+	rapid.Check(t, func(t *rapid.T) {
+		ds := rapid.SliceOfN(genDuration(), 8, 48).Draw(t, "durations")
+		type ref struct{ compact, frac, short string }
+		refs := make([]ref, len(ds))
+		for i, d := range ds {
+			refs[i] = ref{times.SmartDurationStringEx(time.Duration(d), false), times.SmartDurationStringEx(time.Duration(d), true), times.SmartDurationString(time.Duration(d))}
+		}
+		const G, rounds = 8, 40
+		errs := make(chan string, G)
+		var wg sync.WaitGroup
+		for g := 0; g < G; g++ {
+			wg.Add(1)
+			go func(g int) {
+				defer wg.Done()
+				defer func() {
+					if p := recover(); p != nil {
+						errs <- fmt.Sprintf("goroutine %d panicked: %v", g, p)
+					}
+				}()
+				for r := 0; r < rounds; r++ {
+					for k := range ds {
+						i := (k + g*5 + r) % len(ds)
+						d := time.Duration(ds[i])
+						if s := times.SmartDurationStringEx(d, false); s != refs[i].compact {
+							errs <- fmt.Sprintf("SmartDurationStringEx(%d,false) = %q while other goroutines format, %q alone", ds[i], s, refs[i].compact)
+							return
+						}
+						if s := times.SmartDurationStringEx(d, true); s != refs[i].frac {
+							errs <- fmt.Sprintf("SmartDurationStringEx(%d,true) = %q while other goroutines format, %q alone", ds[i], s, refs[i].frac)
+							return
+						}
+						if s := times.SmartDurationString(d); s != refs[i].short {
+							errs <- fmt.Sprintf("SmartDurationString(%d) = %q while other goroutines format, %q alone", ds[i], s, refs[i].short)
+							return
+						}
+						if back, err := times.ParseDuration(refs[i].frac); err != nil || back != d {
+							errs <- fmt.Sprintf("ParseDuration(%q) = %d, %v while other goroutines parse; want %d", refs[i].frac, back, err, ds[i])
+							return
+						}
+					}
+				}
+			}(g)
+		}
+		wg.Wait()
+		close(errs)
+		for e := range errs {
+			t.Fatalf("C20 concurrent use: %s", e)
+		}
+		vlib.Case("TestConcurrentRoundTrip", fmt.Sprint(ds), "concurrent")
+	})
 }
